@@ -781,6 +781,14 @@ theorem countP_retryTrace (k left : Nat) : (retryTrace k left).countP PC.isFetch
 theorem countP_goodTail (d : Nat) : (goodTail c d).countP PC.isFetching = 0 := by
   simp [goodTail, PC.isFetching]
 
+/-- a run from `fetching left` whose trace is `k` absorbed failures followed by download-free
+steps made exactly `k + 1` download attempts -/
+theorem downloads_retry (k left : Nat) (t : List PC) (ht : t.countP PC.isFetching = 0) :
+    downloads (.fetching left) (retryTrace k left ++ t) = k + 1 := by
+  unfold downloads
+  rw [List.countP_cons, List.countP_append, countP_retryTrace, ht]
+  simp [PC.isFetching]
+
 end Solo
 
 /-! ## Locality of the solo runner -/
